@@ -117,5 +117,25 @@ let () = iter_lines (fun line ->
        | FErr _ -> Printf.printf "pkt %s err\n" (hex_of_bytes data)
        | FPanic _ -> Printf.printf "pkt %s panic\n" (hex_of_bytes data)
        | FFuel -> Printf.printf "pkt %s fuel\n" (hex_of_bytes data))
+  | ["nbtw"; "nil"] ->
+      let (bs, n) = w_nbtfield None in
+      Printf.printf "nbtw %s %s\n" (hex_of_bytes bs) (dec_of_n n)
+  | ["nbtw"; chunks] ->
+      let cs = List.map bytes_of_hex (String.split_on_char ',' chunks) in
+      let (bs, n) = w_nbtfield (Some cs) in
+      Printf.printf "nbtw %s %s\n" (hex_of_bytes bs) (dec_of_n n)
+  | ["nbtr"; img; tail; cut] ->
+      (* the NBT decoder is abstract in the model: a root TagEnd raises ErrEND (class e_end), any other
+         document consumes exactly its image *)
+      let img = bytes_of_hex img and tail = bytes_of_hex tail and cut = int_of_string cut in
+      let e_end = n_of_int 7 in
+      let len = List.length img in
+      let d = ReadByte (fun id -> if id = n_of_int 0 then Fail e_end
+                                  else ReadFull (n_of_int (len - 1), (fun bs -> Ret bs))) in
+      let rec take k l = if k = 0 then [] else (match l with [] -> [] | x :: t -> x :: take (k - 1) t) in
+      let input = take (len - cut) img @ tail in
+      (match run_flat (r_nbtfield e_end d) input with
+       | FOk ((_, n), rest) -> Printf.printf "nbtr ok %s %d\n" (dec_of_n n) (List.length rest)
+       | FErr _ -> print_string "nbtr err\n" | FPanic _ -> print_string "nbtr panic\n" | FFuel -> print_string "nbtr fuel\n")
   | _ -> Printf.printf "?? %s\n" line
   with Parse m -> Printf.printf "?? parse %s\n" m)
